@@ -85,8 +85,9 @@ def _key(x, z):
     return (obs.fields(x), obs.offset_s(x))
 
 
-def check_range(acc, pendulum, z, f, span, sign, mode, unit, n):
-    """mode in forward|inverted|absolute-rev|absolute-fwd; sign=+1: other endpoint after start."""
+def check_range(acc, pendulum, z, f, span, sign, mode, unit, n, end_zone=None):
+    """mode in forward|inverted|absolute-rev|absolute-fwd; sign=+1: other endpoint after start.
+    end_zone: express the other endpoint (same instant) in that zone - the sequence must not change."""
     other = c04.add_wall(f if z != "date" else tuple(f[:3]) + (0, 0, 0, 0), span, sign)
     if other is None or not (3 <= other[0] <= 9996):
         return
@@ -99,6 +100,11 @@ def check_range(acc, pendulum, z, f, span, sign, mode, unit, n):
     ia = obs.instant_us(a) if z != "date" else obs.wall_us(tuple(f[:3]) + (0, 0, 0, 0))
     ib = obs.instant_us(b) if z != "date" else obs.wall_us(tuple(other[:3]) + (0, 0, 0, 0))
     case = {"kind": "range", "z": z, "f": list(f), "span": span, "sign": sign, "mode": mode, "unit": unit, "n": n}
+    if end_zone is not None:
+        if mode == "absolute" or z in (None, "date"):
+            return
+        b = b.in_timezone(_tz(pendulum, end_zone))
+        case["end_zone"] = end_zone
     if mode == "absolute":
         iv = pendulum.Interval(a, b, absolute=True)
         s_f, s_i, e_i = (f, ia, ib) if ia <= ib else (other, ib, ia)
@@ -260,6 +266,9 @@ def run_shard(shard):
                         if not thorough and (n + si) % 2 and n not in (1, 12):
                             continue
                         check_range(acc, pendulum, z, f, span, sign, mode, unit, n)
+                        if n in (1, 3) and mode != "absolute":
+                            check_range(acc, pendulum, z, f, span, sign, mode, unit, n,
+                                        end_zone=("Asia/Tokyo" if z != "Asia/Tokyo" else "UTC") if n == 1 else "America/St_Johns")
                         acc.c["nontrivial"] += 1
         for span in ({"days": 45}, {"days": 1, "hours": 5}, {}, {"months": 1}):
             for sign, mode in ((1, "forward"), (-1, "inverted"), (-1, "absolute")):
@@ -273,7 +282,7 @@ def replay_case(case, acc):
     import pendulum
     if case["kind"] == "range":
         check_range(acc, pendulum, case["z"], tuple(case["f"]), case["span"], case["sign"], case["mode"],
-                    case["unit"], case["n"])
+                    case["unit"], case["n"], end_zone=case.get("end_zone"))
     else:
         check_iter(acc, pendulum, case["z"], tuple(case["f"]), case["span"], case["sign"], case["mode"])
 
